@@ -49,6 +49,13 @@ def run(tier):
     ops = [{"op": "write", "rec": rng.choice(list(recs) + ["NIL", "EMPTY"]), "j": 0} for _ in range(120)] + [{"op": "close", "rec": "", "j": 0}]
     base = {"ops": ops, "comp": 2, "wbuf": 4096, "rbuf": 4096, "directio": False, "readprog": [], "seekall": False, "seeks": []}
     batches.append(("long", recs, [dict(base, damage="trunc", dmgstep=37), dict(base, damage="header", dmgstep=2)]))
+    # payloads that begin with 0x00, uncompressed, 60 lengths: a header varint that is made to run on (0x80 set on its last byte) ends in
+    # the payload without changing its value; a sixteenth of the records has a checksum varint one byte shorter than the others
+    recs = riorun.payload_family("zerolead", rng)
+    for comp in (0, 1):
+        ops = [{"op": "write", "rec": t, "j": 0} for t in recs] + [{"op": "close", "rec": "", "j": 0}]
+        base = {"ops": ops, "comp": comp, "wbuf": 4096, "rbuf": rng.choice([16, 4096]), "directio": False, "readprog": [], "seekall": False, "seeks": []}
+        batches.append(("zerolead-%d" % comp, recs, [dict(base, damage="header", dmgstep=2), dict(base, damage="trunc", dmgstep=7)]))
     total = riorun.run_batches(o, binary, batches, "C12", sigprefix="riodamage")
     ndmg = 0
     for r in o.extra.get("tlc_runs", []):
